@@ -61,7 +61,7 @@ fn binaries() -> Vec<(String, String)> {
 fn local_to_json(l: &Local) -> Json {
     json!({
         "states": l.states, "transitions": l.transitions, "evaluations": l.evaluations, "impl_checked": l.impl_checked,
-        "nontrivial": l.nontrivial.len(),
+        "nontrivial": l.nontrivial.len() as u64 + l.nontrivial_extra,
         "counters": l.counters,
         "samples": l.samples,
         "viols": l.viols.iter().map(|v| json!({"key": v.key, "space": v.space, "case": v.case, "direct": v.direct, "expected": v.expected, "observed": v.observed})).collect::<Vec<_>>(),
@@ -73,9 +73,9 @@ fn merge_json(l: &mut Local, j: &Json, tag: &str) {
     l.transitions += j["transitions"].as_u64().unwrap_or(0);
     l.evaluations += j["evaluations"].as_u64().unwrap_or(0);
     l.impl_checked += j["impl_checked"].as_u64().unwrap_or(0);
-    for k in 0..j["nontrivial"].as_u64().unwrap_or(0) {
-        l.nontrivial(&(tag, k));
-    }
+    // children explore disjoint sub-spaces: their distinct non-trivial cases add up
+    l.nontrivial_extra += j["nontrivial"].as_u64().unwrap_or(0);
+    let _ = tag;
     if let Some(c) = j["counters"].as_object() {
         for (k, v) in c {
             l.add(&format!("{}.{}", tag, k), v.as_u64().unwrap_or(0));
@@ -212,7 +212,8 @@ pub fn child_sweep(maxlen: usize, lo: u16, hi: u16) -> i32 {
                 }),
                 Outcome::Ok(v) => {
                     l.count("accepted");
-                    l.nontrivial(&(crate::oracle::ty_name(*ty), entry.name(), bytes));
+                    // every (entry point, string) is enumerated exactly once
+                    l.nontrivial_extra += 1;
                     if bytes.len() <= 2 || l.counters.get("followups").copied().unwrap_or(0) < 200_000 {
                         l.count("followups");
                         let case = crate::oracle::Case { pid: "C01", space: "c01.sweep", ty: *ty, entry: *entry, bytes };
